@@ -194,6 +194,9 @@ struct OverIdentity {
             if (sizeof(IdxT) == 4 && (c > (int64_t(1) << 30) || c < -(int64_t(1) << 30))) {
                 c = 1 << 20;   // the rounded coordinate must be representable in the backend's 32-bit coordinate type
             }
+            if (std::is_same_v<IdxT, float> && (c >= (int64_t(1) << 22) || c <= -(int64_t(1) << 22))) {
+                c = 1 << 20;   // every lattice point near the coordinate must be a value of the backend's (float) coordinate type
+            }
             return gen_component<R>(c - 40, c + 40, false);
         });
         return rc::gen::map(rc::gen::container<std::vector<uint64_t>>(N, comp), [](std::vector<uint64_t> xb) { return Case{{}, xb}; });
@@ -435,6 +438,8 @@ void register_all()
     OverIdentity<double, 4>::reg();
     OverIdentity<float, 2, int>::reg();       // 32-bit lattice coordinates
     OverIdentity<double, 3, int>::reg();
+    OverIdentity<double, 2, float>::reg();    // floating lattice coordinates narrower than the coordinate scalar
+    OverIdentity<float, 1, double>::reg();
     OverArray<float, 1, float>::reg();
     OverArray<float, 2, double>::reg();
     OverArray<float, 3, float>::reg();
